@@ -8,7 +8,11 @@ import datetime
 STRS = ['', 'a', 'abc', 'hello world', 'key', 'yes', 'no', 'null', '~', '1', '1.5', '0x1F', '2001-01-01', 'a: b', '- x',
         '#c', "it's", 'say "hi"', ' lead', 'trail ', 'multi\nline', 'tab\there', 'caf\u00e9', '\u4e2d\u6587',
         '\U0001F600', 'x' * 60, 'word ' * 30, '\x85nel', '\u2028ls', 'a\x07bell', '\ufeffbom', '!tag', '&anc', '*ali', '%dir',
-        '@at', '`bt', '[', ']', '{', '}', ',', '?', ':', '-', '--- doc', '... end', '=', '<<', '\\back', 'CR\rCR', '\0nul']
+        '@at', '`bt', '[', ']', '{', '}', ',', '?', ':', '-', '--- doc', '... end', '=', '<<', '\\back', 'CR\rCR', '\0nul',
+        # line breaks and indentation at the edges of a text (block scalar headers, chomping, indentation detection)
+        '\n foo\n', '\n\n   x', ' lead\n', 'a\n\n b', '\n', 'x\n\n', '  two\n one', 'tab\t\n', '\n\tx', '\n x\ny', ' a\n  b\n c', 'x\n ',
+        '\n \n', 'a \nb', 'a\n b\n', '\n\n', ' \n x', 'foo\n  bar\n\n baz\n', '\ta', '# c\n x', '- a\n - b', 'k: v\n  k2: v', '\r\n x', '  ',
+        'x ', '\n  foo\n bar']
 
 
 class Pt:
